@@ -919,12 +919,20 @@ func (x *Exec) execBlock(fr *Frame, b *ssa.BasicBlock, st *State, incoming map[*
 			x.edge(fr, b, b.Succs[0], st, incoming)
 			return
 		case *ssa.Return:
-			x.atSite(fr, st, "return", -1, nil, nil)
 			var rs []Val
-			for _, r := range i.Results {
+			rv := map[string]Val{}
+			rt := map[string]types.Type{}
+			for k, r := range i.Results {
 				v := x.value(fr, st, r)
 				rs = append(rs, Val{T: x.term(fr, st, v), Clo: v.Clo})
+				nm := fmt.Sprintf("ret%d", k)
+				if len(i.Results) == 1 {
+					nm = "ret"
+				}
+				rv[nm] = rs[k]
+				rt[nm] = r.Type()
 			}
+			x.atSite(fr, st, "return", -1, rv, rt)
 			fr.rets = append(fr.rets, retInfo{st: st, results: rs, pos: i.Pos()})
 			return
 		case *ssa.Panic:
